@@ -360,3 +360,347 @@ class Vi:
     def setmark(self, name):
         if len(name) == 1 and name.islower() and name.isascii():
             self.marks[name] = (self.row, self.off)
+
+
+# ====================================================================== editing commands (C08)
+class Regs:
+    def __init__(self):
+        self.r = {}
+
+    def put(self, name, text, ln):
+        """name: '' (unnamed) or one character"""
+        def raw(c, s, l):
+            low = c.lower() if (len(c) == 1 and c.isalpha() and c.isascii()) else c
+            pre = self.r.get(low, ("", 0))[0] if (len(c) == 1 and c.isupper() and c.isascii()) else ""
+            self.r[low] = (pre + s, l)
+        if (ln or "\n" in text) and (name == "" or (len(name) == 1 and name.isalpha() and name.isascii())):
+            for i in range(8, 0, -1):
+                if str(i) in self.r:
+                    self.r[str(i + 1)] = self.r[str(i)]
+            self.r["1"] = (text, ln)
+        raw(name, text, ln)
+
+    def get(self, name):
+        if name == '"':
+            name = ""
+        return self.r.get(name)
+
+
+def typed_lines(text):
+    """insert-mode line editor: returns the list of lines typed (the last one is the one ESC ended).
+    ^H/DEL delete the last character typed on the current line, ^W the last word, ^U the whole line typed so far,
+    ^V takes the next key literally."""
+    lines = [""]
+    i = 0
+    while i < len(text):
+        ch = text[i]
+        cur = lines[-1]
+        if ch in ("\x08", "\x7f"):
+            lines[-1] = cur[:-1]
+        elif ch == "\x15":
+            lines[-1] = ""
+        elif ch == "\x17":
+            j = len(cur)
+            while j > 0 and isspace(cur[j - 1]):
+                j -= 1
+            # led_lastword: r starts at the last character; trailing blanks skipped; then characters of the same kind
+            if j > 0:
+                k = kind(cur[j - 1])
+                j -= 1
+                while j > 0 and kind(cur[j - 1]) == k:
+                    j -= 1
+            lines[-1] = cur[:j]
+        elif ch == "\x16" and i + 1 < len(text):
+            lines[-1] = cur + text[i + 1]
+            i += 1
+        elif ch == "\n":
+            lines.append("")
+        else:
+            lines[-1] = cur + ch
+        i += 1
+    return lines
+
+
+class ViEd(Vi):
+    """Vi plus operators, inserts, puts and registers (autoindent off)."""
+
+    def __init__(self, lines, rows, tables):
+        Vi.__init__(self, lines, rows, tables)
+        self.regs = Regs()
+        self.msg = None
+
+    # ---- helpers
+    def region_text(self, r1, o1, r2, o2):
+        """o2 == -1: to the end of line r2 including its terminator"""
+        def sub(r, a, b):
+            f = self.full(r)
+            if f is None:
+                return ""
+            a = min(max(a, 0), len(f))
+            b = len(f) if b < 0 else min(b, len(f))
+            return f[a:b] if a <= b else ""
+        if r1 == r2:
+            return sub(r1, o1, o2)
+        return sub(r1, o1, -1) + "".join(self.ln[r] + "\n" for r in range(r1 + 1, r2) if 0 <= r < len(self.ln)) + sub(r2, 0, o2)
+
+    def set_lines(self, r1, r2, text):
+        """replace lines r1..r2 (inclusive) by the lines of text (None: delete)"""
+        n = len(self.ln)
+        a, b = min(r1, n), min(r2 + 1, n)
+        if text is None:
+            new = []
+        else:
+            new = text.split("\n")
+            if new and new[-1] == "":
+                new.pop()
+        self.ln[a:b] = new
+
+    def after(self):
+        # vi(): vi_wfix() first (clamps the row and the offset), then the remembered column is recomputed (mod != 0)
+        self.wfix()
+        self.col = self.off2col(self.row, self.off) if 0 <= self.row < len(self.ln) else 0
+
+    # ---- operator + motion
+    def operator(self, op, reg, cnt1, cnt2, mkey, marg=None, typed=None):
+        """op in d c y < > ~ u U (g~ gu gU) ; mkey the motion key or the doubled operator ('dd' -> mkey == op)"""
+        r1 = r2 = self.row
+        o1 = self.noeol(self.row, self.off)
+        o2 = o1
+        cnt = (cnt1 if cnt1 else 1) * (cnt2 if cnt2 else 1)
+        n = len(self.ln)
+        doubled = mkey == "same"
+        if doubled:
+            r2 = max(0, min(r2 + cnt - 1, n - 1))
+            mv, o2 = op, -1
+        else:
+            save = (self.row, self.off)
+            res = self.motion(mkey, cnt if (cnt1 or cnt2) else 0, marg)
+            if res is None:
+                return False
+            mv, r2, o2 = res
+        lnmode = o2 < 0
+        if lnmode:
+            o1, o2 = 0, self.eol(r2)
+        if r1 > r2:
+            r1, r2, o1, o2 = r2, r1, o2, o1
+        if r1 == r2 and o1 > o2:
+            o1, o2 = o2, o1
+        o1 = self.noeol(r1, o1)
+        if not lnmode and mv in "fFtTeE%":
+            if o2 < self.eol(r2):
+                o2 = self.noeol(r2, o2) + 1
+        reg = reg or ""
+        if op == "y":
+            self.regs.put(reg, self.region_text(r1, 0 if lnmode else o1, r2, -1 if lnmode else o2), 1 if lnmode else 0)
+            self.row = r1
+            if not lnmode:
+                self.off = o1
+            self.after_noop()
+            return True
+        if op == "d":
+            self.regs.put(reg, self.region_text(r1, 0 if lnmode else o1, r2, -1 if lnmode else o2), 1 if lnmode else 0)
+            if not lnmode:
+                f1, f2 = self.full(r1) or "", self.full(r2) or ""
+                self.set_lines(r1, r2, f1[:o1] + f2[o2:])
+            else:
+                self.set_lines(r1, r2, None)
+            self.row = r1
+            self.off = self.indents(self.row) if lnmode else o1
+            self.after()
+            return True
+        if op == "c":
+            self.regs.put(reg, self.region_text(r1, 0 if lnmode else o1, r2, -1 if lnmode else o2), 1 if lnmode else 0)
+            f1, f2 = self.full(r1), self.full(r2)
+            pref = "" if lnmode else (f1 or "")[:o1]
+            post = "\n" if (lnmode or f2 is None) else f2[o2:]
+            self.row = r1
+            self.do_input(pref, post, typed or "", r1, r2 + 1)
+            return True
+        if op in ("~", "u", "U"):
+            txt = self.region_text(r1, 0 if lnmode else o1, r2, -1 if lnmode else o2)
+            out = []
+            for ch in txt:
+                if ord(ch) <= 0x7f:
+                    if op == "u":
+                        ch = ch.lower()
+                    elif op == "U":
+                        ch = ch.upper()
+                    else:
+                        ch = ch.upper() if ch.islower() else ch.lower()
+                out.append(ch)
+            txt = "".join(out)
+            if not lnmode:
+                f1, f2 = self.full(r1) or "", self.full(r2) or ""
+                self.set_lines(r1, r2, f1[:o1] + txt + f2[o2:])
+            else:
+                self.set_lines(r1, r2, txt)
+            self.row = r2
+            self.off = self.indents(r2) if lnmode else o2
+            self.after()
+            return True
+        if op in ("<", ">"):
+            for r in range(r1, r2 + 1):
+                if not (0 <= r < len(self.ln)):
+                    continue
+                l = self.ln[r]
+                if op == ">":
+                    if l != "":
+                        l = "\t" + l
+                else:
+                    if l[:1] in (" ", "\t"):
+                        l = l[1:]
+                self.ln[r] = l
+            self.row = r1
+            self.off = self.indents(self.row)
+            self.after()
+            return True
+        raise ValueError(op)
+
+    def after_noop(self):
+        # yank: mod == 0 -> the remembered column is not recomputed
+        self.wfix()
+
+    # ---- insert-mode text
+    def do_input(self, pref, post, typed, beg, end):
+        """replace lines [beg, end) by pref + typed + post as the insert-mode line editor builds it (noautoindent)"""
+        tl = typed_lines(typed)
+        ai = ""
+        k = 0
+        while k < len(pref) and pref[k] in " \t":
+            k += 1
+        ai, pref = pref[:k], pref[k:]
+        first = tl[0]
+        sp = 0
+        while sp < len(first) and first[sp] in " \t":
+            sp += 1
+        single = len(tl) == 1
+        cond = sp < len(first) or pref != "" or (single and post[:1] not in ("", "\n"))
+        out = (ai if cond else "") + pref + first
+        for t in tl[1:]:
+            out += "\n" + t
+        last_before_post = out.split("\n")[-1]
+        out += post
+        n_lines = out.count("\n")
+        n = len(self.ln)
+        a, b = min(beg, n), min(end, n)
+        new = out.split("\n")
+        if new and new[-1] == "":
+            new.pop()
+        self.ln[a:b] = new
+        self.row = beg + n_lines - 1
+        self.off = max(0, len(last_before_post) - 1)
+        self.after()
+
+    def insert(self, cmd, typed):
+        n = len(self.ln)
+        f = self.full(self.row)
+        if cmd == "I":
+            self.off = self.indents(self.row)
+        if cmd == "A":
+            self.off = self.eol(self.row)
+        self.off = self.noeol(self.row, self.off)
+        if cmd in "iI":
+            off = self.off
+        elif cmd in "aA":
+            off = self.off + 1
+        else:
+            off = 0
+        if f is not None and f[0] == "\n":
+            off = 0
+        if cmd in "oO":
+            if n == 0:
+                self.ln.insert(0, "")          # CAL: o/O on an empty buffer first create an empty line
+            beg = self.row + 1 if cmd == "o" else self.row
+            self.do_input("", "\n", typed, beg, beg)
+        else:
+            pref = f[:off] if f is not None else ""
+            post = f[off:] if f is not None else "\n"
+            self.do_input(pref, post, typed, self.row, self.row + 1)
+
+    def put(self, cmd, reg, cnt):
+        cnt = max(1, cnt)
+        buf = self.regs.get(reg or "")
+        if buf is None or buf[0] == "":
+            self.after_noop()
+            return False
+        text, lnmode = buf
+        if lnmode:
+            if not self.ln:
+                self.ln.append("")          # CAL: a line-wise put into an empty buffer first creates an empty line
+            if cmd == "p":
+                self.row += 1
+            new = (text * cnt).split("\n")
+            if new and new[-1] == "":
+                new.pop()
+            self.ln[self.row:self.row] = new
+            self.off = self.indents(self.row)
+        else:
+            f = self.full(self.row) if 0 <= self.row < len(self.ln) else "\n"
+            off = self.noeol_str(f, self.off) + (1 if (f[0] != "\n" and cmd == "p") else 0)
+            newtext = f[:off] + text * cnt + f[off:]
+            new = newtext.split("\n")
+            if new and new[-1] == "":
+                new.pop()
+            if 0 <= self.row < len(self.ln):
+                self.ln[self.row:self.row + 1] = new
+            else:
+                self.ln[len(self.ln):] = new
+            self.off = off + len(text) * cnt - 1
+        self.after()
+        return True
+
+    @staticmethod
+    def noeol_str(f, o):
+        n = len(f)
+        if o >= n:
+            o = max(0, n - 1)
+        return o - 1 if (o > 0 and f[o] == "\n") else o
+
+    def join(self, cnt):
+        cnt = 2 if cnt <= 1 else cnt
+        beg, end = self.row, self.row + cnt
+        if not (0 <= beg < len(self.ln)) or not (0 <= end - 1 < len(self.ln)):
+            self.after_noop()
+            return False
+        acc = ""
+        off = 0
+        for i in range(beg, end):
+            l = self.ln[i]
+            if i > beg:
+                l = l.lstrip(" \t")
+            if i > beg and acc != "":
+                if acc.endswith(" ") or l.startswith(")"):
+                    sp = 0
+                else:
+                    sp = 2 if acc.endswith(".") else 1
+            else:
+                sp = 0
+            off = len(acc)
+            acc += " " * sp + l
+        self.ln[beg:end] = [acc]
+        self.off = off
+        self.after()
+        return True
+
+    def replace(self, cnt, ch):
+        cnt = max(1, cnt)
+        f = self.full(self.row)
+        if f is None:
+            self.after_noop()
+            return False
+        off = self.noeol(self.row, self.off)
+        if off + cnt > len(f) - 1:      # fewer than cnt characters before the terminator
+            self.after_noop()
+            return False
+        new = f[:off] + ch * cnt + f[off + cnt:]
+        nl = new.split("\n")
+        if nl and nl[-1] == "":
+            nl.pop()
+        self.ln[self.row:self.row + 1] = nl
+        if ch == "\n":
+            self.row += cnt
+            self.off = 0
+        else:
+            self.off = off + cnt - 1
+        self.after()
+        return True
